@@ -10,8 +10,8 @@ VARIANTS = [
     V("axis-from-clip-start", I, "    start_time = offset / samplerate\n", "    start_time = clip.start_time\n", "R15.1"),
     V("axis-end-from-clip-end", I, "    end_time = start_time + samples / samplerate\n", "    end_time = clip.end_time\n", "R15.1"),
     V("fill-value-none", I, "fill_value=0)", "fill_value=None)", "R15.2"),
-    V("read-before-seek", I, "        fp.seek(offset)\n        data = fp.read(frames=samples, always_2d=True, fill_value=0)", "        data = fp.read(frames=samples, always_2d=True, fill_value=0)\n        fp.seek(offset)", "R15.2"),
-    V("no-seek", I, "        fp.seek(offset)\n", "", "R15.2"),
+    V("read-before-seek", I, "        fp.seek(min(offset, fp.frames))\n        data = fp.read(frames=samples, always_2d=True, fill_value=0)", "        data = fp.read(frames=samples, always_2d=True, fill_value=0)\n        fp.seek(min(offset, fp.frames))", "R15.2"),
+    V("no-seek", I, "        fp.seek(min(offset, fp.frames))\n", "", "R15.2"),
     V("not-2d", I, "always_2d=True, ", "", "R15.2"),
     V("pinned-step-hop-size(F14)", S, "                step=(nperseg - noverlap) / samplerate,", "                step=hop_size,", "R15.3"),
     V("freq-step-from-noverlap", S, "                step=samplerate / nperseg,", "                step=samplerate / noverlap,", "R15.3"),
@@ -24,7 +24,7 @@ VARIANTS = [
     V("samples-none-reads-zero", I, "    if samples is None:\n        samples = -1\n", "    if samples is None:\n        samples = 0\n", "R15.2"),
     V("boundary-dropped-when-unpadded", "src/soundevent/audio/spectrograms.py", "        boundary=boundary,  # type: ignore", "        boundary=boundary if padded else None,  # type: ignore", "R15.4"),
     V("boundary-always-none", "src/soundevent/audio/spectrograms.py", "        boundary=boundary,  # type: ignore", "        boundary=None,", "R15.4"),
-    V("refused-seek-swallowed(G.7)", "src/soundevent/audio/io.py", "        fp.seek(offset)\n", "        try:\n            fp.seek(offset)\n        except sf.LibsndfileError:\n            pass\n", "G.7"),
+    V("refused-seek-swallowed(G.7)", "src/soundevent/audio/io.py", "        fp.seek(min(offset, fp.frames))\n", "        try:\n            fp.seek(offset)\n        except sf.LibsndfileError:\n            pass\n", "G.7"),
     # neutral
     V("N-math-floor", I, "    offset = int(np.floor(clip.start_time * samplerate))", "    import math\n\n    offset = math.floor(clip.start_time * samplerate)", None),
     V("N-rename-duration", I, "    duration = clip.end_time - clip.start_time\n    samples = int(np.floor(duration * samplerate))", "    length = clip.end_time - clip.start_time\n    samples = int(np.floor(length * samplerate))", None),
@@ -32,4 +32,7 @@ VARIANTS = [
     # wave 7
     V("stft-zero-padded-to-power-of-two", "src/soundevent/audio/spectrograms.py", "        nperseg=nperseg,\n", "        nperseg=nperseg,\n        nfft=1 << (nperseg - 1).bit_length(),\n", "R15.3"),
     V("N-stft-nfft-default", "src/soundevent/audio/spectrograms.py", "        nperseg=nperseg,\n", "        nperseg=nperseg,\n        nfft=None,\n", None),
+    # F28: the pre-repair form
+    V("seek-beyond-the-last-frame(F28)", "src/soundevent/audio/io.py", "        fp.seek(min(offset, fp.frames))\n", "        fp.seek(offset)\n", "R15.6"),
+    V("N-seek-capped-other-order", "src/soundevent/audio/io.py", "        fp.seek(min(offset, fp.frames))\n", "        fp.seek(min(fp.frames, offset))\n", None),
 ]
